@@ -36,6 +36,21 @@ sys.path.insert(0, os.path.join(vlib.VERIF, "tools"))
 import doc_equiv  # noqa: E402
 
 MAXLEN = {"quick": 4, "thorough": 5}
+
+
+def _keep_vmain_alive():
+    """workaround for a shared-cache race (same as lib/props_c06.py): vlib.prune_cache removes the oldest cache directories
+    at the end of any check; the shared vmain-<hash>/vmain.o is never touched after creation and can vanish under a
+    concurrent run"""
+    import glob
+    for d in glob.glob(os.path.join(vlib.BUILD, "corpus", "vmain-*")):
+        try:
+            os.utime(d)
+        except OSError:
+            pass
+
+
+_keep_vmain_alive()
 BASE_CORPUS = False
 WANT_TAGS = ["__c09_none__"]
 KNOWN_SIGS = {}
@@ -265,7 +280,8 @@ def B():
 
 SLOT_BASIS = ["atom", "cf", "nullable", "raising", "cfraise", "eof", "namedcf", "named"]
 Q1 = ["atom", "cf", "nullable", "raising", "cfraise", "namedcf"]      # quick tier: 1-slot rules
-Q2 = ["cf", "nullable", "raising", "cfraise", "namedcf"]             # quick tier: 2-slot rules; thorough: pairwise products
+Q2 = ["cf", "nullable", "raising", "cfraise", "namedcf"]             # thorough: pairwise products for 2-slot rules
+Q2Q = ["cf", "nullable", "raising", "namedcf"]                        # quick tier: 2-slot rules
 Q3 = ["cf", "nullable", "raising"]                                    # quick tier: rules with 3 and more slots
 NEUTRAL = ["atom", "cf"]
 
@@ -289,19 +305,19 @@ def one_at_a_time(ns, basis, partners="rotate"):
 def slot_plan(ns, tier, own, qctx):
     """-> [(combo, number of calling contexts)]"""
     if tier == "quick":
-        basis = Q1 if ns == 1 else Q2 if ns == 2 else Q3
+        basis = Q1 if ns == 1 else Q2Q if ns == 2 else Q3
         return [(c, qctx if ns <= 2 else 1) for c in one_at_a_time(ns, basis)]
     if ns <= 1:
         return [(c, 4) for c in one_at_a_time(ns, SLOT_BASIS)]
     first = one_at_a_time(ns, SLOT_BASIS)
     if ns == 2:
         out = [(c, 4) for c in first]
-        more = one_at_a_time(ns, SLOT_BASIS, "both") + [(x, y) for x in Q2 for y in Q2]
+        more = [(x, y) for x in Q2 for y in Q2]
         for c in more:
             if c not in first and (c, 1) not in out:
                 out.append((c, 1))
         return out
-    return [(c, 2 if own else 1) for c in first]
+    return [(c, 2 if own and i % 2 == 0 else 1) for i, c in enumerate(first)]
 
 
 class Fam:
@@ -392,7 +408,9 @@ def pair_groups(tier):
                     nctx = min(nctx, 2)
                 if tier == "quick" and ci % 2:
                     nctx = 1
-                if tier == "quick" and len(nums) > 1 and f.ns >= 2 and (ci + ni) % 2:
+                if len(nums) > 1 and f.ns >= 2 and (ci + ni) % 2:
+                    continue
+                if tier == "quick" and not f.own and f.ns >= 3 and ci % 2:
                     continue
                 args = list(nu) + [b[x] for x in c]
                 exps = expansions_for(f.name, args)
@@ -487,7 +505,7 @@ def parts_groups(tier):
         pairs = [(h, s) for h in H for s in S]
     for ni, name in enumerate(("rematch", "minus")):
         for pi, (h, s) in enumerate(pairs):
-            if tier == "thorough" and (pi + ni) % 2 and h not in extra_heads and s not in extra_seconds:
+            if tier == "thorough" and (pi + ni) % 3 and not (h in extra_heads and s in extra_seconds):
                 continue
             tags = ["c09", name + "_parts", name, "ctx:top", "basis:%s+%s" % (h, s)]
             impl = "%s< %s, %s >" % (name, H[h], S[s])
@@ -570,7 +588,7 @@ def extra_grams(tier, seed, start_gid):
         groups = [gr for gr in groups if gr[0].c09["name"] in only]
     for pid, gr in enumerate(groups):
         assert len(gr) <= per
-        lines = ["// C09GROUP %d" % pid]
+        lines = ["// C09GROUP %d" % pid, "// C09NAME %s" % gr[0].c09["name"]]
         for g in gr:
             g.c09["pair"] = pid
             g.tags.add("ctx:c09:%d:%s" % (pid, g.c09["role"]))
@@ -582,7 +600,7 @@ def extra_grams(tier, seed, start_gid):
     if room != per:
         out += [filler() for _ in range(room)]
     shared = [] if only else shared_c09(tier)
-    step = 5 if tier == "quick" else 8
+    step = 8 if tier == "quick" else 25
     out += [g for i, g in enumerate(shared) if i % step == 0]
     for i, g in enumerate(out):
         g.gid = start_gid + i
@@ -852,7 +870,8 @@ def replay(j):
     nparts = len([r for r in texts if r.startswith("part")])
     ctxname = next((t[4:] for t in tags if t.startswith("ctx:")), "top")
     strip = lambda root: root           # noqa: E731
-    implc.c09.update({"impl": implc.root, "ctx": ctxname, "twins": [(texts[r][0], texts[r][1]) for r in sorted(texts) if r.startswith("twin")]})
+    name = next((l[len("// C09NAME "):].strip() for l in pre.split("\n") if l.startswith("// C09NAME ")), "?")
+    implc.c09.update({"name": name, "impl": implc.root, "ctx": ctxname, "twins": [(texts[r][0], texts[r][1]) for r in sorted(texts) if r.startswith("twin")]})
     if nparts:
         implc.c09.update({"parts": "rematch" if implc.root.startswith("rematch") else "minus", "nparts": nparts})
     _ = strip
